@@ -6,7 +6,7 @@ use crate::region::{Flavour, region};
 use bump_scope::alloc::{AllocError, Allocator};
 use bump_scope::settings::{Bool, BumpSettings, MinimumAlignment, SupportedMinimumAlignment};
 use bump_scope::stats::AnyStats;
-use bump_scope::traits::{BumpAllocator, BumpAllocatorCore, BumpAllocatorCoreScope, BumpAllocatorScope, BumpAllocatorTyped, BumpAllocatorTypedScope};
+use bump_scope::traits::{BumpAllocator, BumpAllocatorCore, BumpAllocatorCoreScope, BumpAllocatorScope, BumpAllocatorTyped, BumpAllocatorTypedScope, MutBumpAllocatorTypedScope};
 use bump_scope::{BaseAllocator, Bump, BumpScope, BumpScopeGuard, Checkpoint, MutBumpVec, MutBumpVecRev, WithoutDealloc, WithoutShrink};
 use std::alloc::Layout;
 use std::ptr::NonNull;
@@ -86,6 +86,9 @@ pub trait ScopeOps {
     fn with_bmws(&mut self, n: usize, f: &mut dyn FnMut(&mut dyn ScopeOps));
     /// second claim on a claimed handle: must panic; returns the panic message if it did
     fn claim_again(&self) -> Option<String>;
+    /// alloc_iter_mut / alloc_iter_mut_rev with an iterator that claims `hint` elements and yields `n`:
+    /// (address, bytes of the final slice)
+    fn iter_mut(&mut self, esz: usize, eal: usize, rev: bool, hint: usize, n: usize, tags: &[u8], via: &str) -> Result<(usize, Vec<u8>), ()>;
     /// creates an exclusive-borrow collection of elements of layout (esz, eal) with initial capacity c0
     fn prep<'s>(&'s mut self, esz: usize, eal: usize, rev: bool, via: &str, c0: usize) -> Result<Box<dyn PrepOps + 's>, ()>;
 }
@@ -100,6 +103,21 @@ pub trait PrepOps {
     fn snapshot(&self) -> Snap;
     /// finalise: (address, length in elements, bytes of the final slice)
     fn commit(self: Box<Self>) -> (usize, usize, Vec<u8>);
+}
+
+/// an iterator whose size hint may lie
+pub struct LyingIter<T> {
+    pub items: std::vec::IntoIter<T>,
+    pub hint: usize,
+}
+impl<T> Iterator for LyingIter<T> {
+    type Item = T;
+    fn next(&mut self) -> Option<T> {
+        self.items.next()
+    }
+    fn size_hint(&self) -> (usize, Option<usize>) {
+        (self.hint, None)
+    }
 }
 
 pub trait Elem: Copy + 'static {
@@ -491,6 +509,33 @@ macro_rules! impl_scope_ops {
                 _ => panic!("unknown try_with family {fam}"),
             }
         }
+        fn iter_mut(&mut self, esz: usize, eal: usize, rev: bool, hint: usize, _n: usize, tags: &[u8], via: &str) -> Result<(usize, Vec<u8>), ()> {
+            macro_rules! go {
+                ($t:ty) => {{
+                    let items: Vec<$t> = tags.iter().map(|&t| <$t>::make(t)).collect();
+                    let it = LyingIter { items: items.into_iter(), hint };
+                    let r = match (rev, via) {
+                        (false, "panicking") | (false, "typed") => Ok(self.alloc_iter_mut(it)),
+                        (false, "ref") | (false, "dyn") => MutBumpAllocatorTypedScope::try_alloc_iter_mut(&mut *self.tscope_mut(), it).map_err(|_| ()),
+                        (false, _) => self.try_alloc_iter_mut(it).map_err(|_| ()),
+                        (true, "panicking") | (true, "typed") => Ok(self.alloc_iter_mut_rev(it)),
+                        (true, "ref") | (true, "dyn") => MutBumpAllocatorTypedScope::try_alloc_iter_mut_rev(&mut *self.tscope_mut(), it).map_err(|_| ()),
+                        (true, _) => self.try_alloc_iter_mut_rev(it).map_err(|_| ()),
+                    };
+                    r.map(|b| {
+                        let (a, _, bytes) = boxed_out(b);
+                        (a, bytes)
+                    })
+                }};
+            }
+            match (esz, eal) {
+                (1, 1) => go!(u8),
+                (3, 1) => go!([u8; 3]),
+                (8, 8) => go!(u64),
+                (32, 32) => go!(A32),
+                _ => panic!("no element type for layout ({esz}, {eal})"),
+            }
+        }
         fn checkpoint(&self) -> Checkpoint {
             BumpAllocatorCore::checkpoint(self)
         }
@@ -761,6 +806,7 @@ where
 pub trait TScope {
     type S;
     fn tscope(&self) -> &Self::S;
+    fn tscope_mut(&mut self) -> &mut Self::S;
 }
 impl<'a, A, const MA: usize, const UP: bool, const GA: bool, const DE: bool, const SH: bool, const MCS: usize> TScope
     for BumpScope<'a, A, BumpSettings<MA, UP, GA, true, DE, SH, MCS>>
@@ -770,6 +816,9 @@ where
 {
     type S = Self;
     fn tscope(&self) -> &Self {
+        self
+    }
+    fn tscope_mut(&mut self) -> &mut Self {
         self
     }
 }
@@ -783,6 +832,9 @@ where
     fn tscope(&self) -> &Self::S {
         // shorten-only in practice: the reference is used for the duration of one call
         unsafe { std::mem::transmute::<&BumpScope<'_, A, BumpSettings<MA, UP, GA, true, DE, SH, MCS>>, &Self::S>(self.as_scope()) }
+    }
+    fn tscope_mut(&mut self) -> &mut Self::S {
+        unsafe { std::mem::transmute::<&mut BumpScope<'_, A, BumpSettings<MA, UP, GA, true, DE, SH, MCS>>, &mut Self::S>(self.as_mut_scope()) }
     }
 }
 
